@@ -63,7 +63,13 @@ Shapes ==
   \o SeqMap(LAMBDA p : << "ReadLeaseSet", LS(p[1], p[2]), p[1], 0 >>, << << 0, 0 >>, << 1, 0 >>, << 2, 0 >>, << 7, 0 >>, << 7, 4 >> >>)
   \o << << "ReadRouterInfo", RI(7, 4), 7, 0 >>, << "ReadRouterInfo", RI(7, 0), 7, 0 >> >>
   \o Cross2(<< 7, 11 >>, << 7, 11, 1, 0 >>, LAMBDA dst, tst : << "ReadOfflineSignature", EncOffline(T4, tst, dst, 4), dst, dst >>)
-Vecs == [k \in 1..Len(Shapes) |-> Session(Shapes[k][1], Shapes[k][2], Shapes[k][3], Shapes[k][4], k)]
+\* the same skeletons, genuine and with one covered bit flipped, verified as DISTINCT values by several goroutines at the same time
+DistinctVecs ==
+  Concat([k \in 1..Len(Shapes) |->
+     LET sh == Shapes[k]  p == Probe(sh[1], sh[2], sh[3], sh[4], [kind |-> "none"], 5000 + k) IN
+     SeqMap(LAMBDA off : [ops |-> << [p EXCEPT !.op = "ConcurrentVerify"] @@ [n |-> 8, reps |-> (IF Thorough THEN 20000 ELSE 1000), flipoff |-> off, cls |-> "flip"] >>],
+            ContentOffsets(sh[1], sh[2], sh[4]))])
+Vecs == [k \in 1..Len(Shapes) |-> Session(Shapes[k][1], Shapes[k][2], Shapes[k][3], Shapes[k][4], k)] \o DistinctVecs
 VARIABLE done
 Init == done = FALSE
 Next == ~done /\ ndJsonSerialize(OutFile, Vecs) /\ PrintT(<< "GENERATED", Len(Vecs) >>) /\ done' = TRUE
